@@ -1,4 +1,5 @@
 import ArrProofs.Lemmas.C08Reduce
+import ArrProofs.Lemmas.C08Empty
 /-!
 # C08 — axis-wise reductions and scans equal the 1-D operation on every lane
 
@@ -10,8 +11,9 @@ last, ravel, `split` into lanes, apply the 1-D body, flatten, reshape, move the 
 the length of its output on a lane (one element for reductions, the lane length for scans).
 
 `laneOf a axis c` = the elements of `a` at `c` with coordinate `axis` replaced by `0, 1, …` (`laneOf_getElem?`,
-`laneOf_length`).  All statements hold for every rank, every axis, every axis length ≥ 1 (`0 ∉ a.shape`; arrays
-with a zero-length axis are covered by the differential tie only).
+`laneOf_length`).  The lane statements hold for every rank, every axis, every axis length ≥ 1 (`0 ∉ a.shape`); the last
+section says what the model does on arrays WITH a zero-length axis (`along_axis_empty_axis`, `reduce_empty_axis`, …) and
+gives the statements that hold for every well-formed array (`along_axis_total`, `axis_ops_never_panic`).
 -/
 namespace ArrModel.C08
 open ArrModel Arr
@@ -204,5 +206,220 @@ example : sample.countAxis 0 0 (some 1) none countBody = .ok ⟨[2, 3, 3, 3, 3, 
 example : (⟨[5, 6, 7], [3]⟩ : Arr Nat).reduceAxis 0 0 (some 0) sumBody = .ok ⟨[18], [1]⟩ := by decide +kernel
 example : sample.reduceAxis 0 0 (some 4) sumBody = .err .AxisOutOfBounds ∧
     sample.reduceAxis 0 0 (some (-5)) sumBody = .err .AxisOutOfBounds := by decide +kernel
+
+/-! ### arrays with a zero-length axis, and the total statements (extension; proofs in `Lemmas/C08Empty.lean`)
+
+The theorems above assume `0 ∉ a.shape`.  What follows says what the MODEL does on every well-formed array that HAS a
+zero-length axis (such an array has no elements), for every rank and every axis, and closes with statements that hold for
+EVERY well-formed array.  `rest = a.shape.eraseIdx axis` are the other axes.
+* another axis is empty (`0 ∈ rest`): `parts = rest.prod = 0`, `split(0, None)` refuses: `Err(ParameterError)`;
+* only the processed axis is empty: `parts > 0`, the moved array is empty, `split` returns the single empty piece, the
+  1-D body is applied ONCE to the empty lane `Arr.flat []`; its answer `y` is reshaped to `rest ++ [y.len]`, which fits
+  exactly when `rest.prod = 1 ∨ y.len = 0`; an error of the body on the empty lane (max / min / argmax / argmin) is passed on.
+That the real crate does the same on these arrays is established by the zero-length stream of the differential tie. -/
+
+/-- **another axis has length 0**: `apply_along_axis` answers `Err(ParameterError)` whatever the lane function -/
+theorem along_axis_other_axis_empty (a : Arr α) (zero : α) (zb : β) (axis : Nat) (f : Arr α → Res (Arr β))
+    (hwf : a.WF) (hax : axis < a.ndim) (h0 : 0 ∈ a.shape.eraseIdx axis) :
+    a.applyAlongAxis zero zb axis f = .err .ParameterError :=
+  applyAlongAxis_other_zero a zero zb axis f hwf hax h0
+
+/-- **only the processed axis has length 0**: the complete outcome in terms of `f (Arr.flat [])` -/
+theorem along_axis_empty_axis (a : Arr α) (zero : α) (zb : β) (axis : Nat) (f : Arr α → Res (Arr β))
+    (hwf : a.WF) (hax : axis < a.ndim) (hrest : 0 ∉ a.shape.eraseIdx axis) (hn : a.shape.getD axis 0 = 0) :
+    a.applyAlongAxis zero zb axis f = f (Arr.flat []) >>= fun y =>
+      if (a.shape.eraseIdx axis).prod = 1 ∨ y.elems.length = 0 then .ok ⟨y.elems, a.shape.set axis y.elems.length⟩
+      else .err .ShapeMustMatchValuesLength :=
+  applyAlongAxis_axis_zero a zero zb axis f hwf hax hrest hn
+
+/-- the two cases are exhaustive: a shape containing 0 has the zero on another axis, or only on the processed one -/
+theorem empty_axis_cases (a : Arr α) (axis : Nat) (hax : axis < a.ndim) (h0 : 0 ∈ a.shape) :
+    0 ∈ a.shape.eraseIdx axis ∨ (0 ∉ a.shape.eraseIdx axis ∧ a.shape.getD axis 0 = 0) :=
+  zero_mem_cases a.shape axis hax h0
+
+/-- **total statement for `apply_along_axis`**: EVERY well-formed array (with or without zero-length axes), every axis
+(in range or not), every lane function that never panics — no assumption on the lengths it returns —: the answer is `Ok`
+with a well-formed array of the same rank, or `Err`; never a panic -/
+theorem along_axis_total (a : Arr α) (zero : α) (zb : β) (axis : Nat) (f : Arr α → Res (Arr β))
+    (hwf : a.WF) (hf : ∀ x, f x ≠ .panic) :
+    ((∃ r, a.applyAlongAxis zero zb axis f = .ok r ∧ r.WF ∧ r.ndim = a.ndim) ∨
+     (∃ e, a.applyAlongAxis zero zb axis f = .err e)) ∧ a.applyAlongAxis zero zb axis f ≠ .panic :=
+  ⟨applyAlongAxis_total a zero zb axis f hwf hf, applyAlongAxis_never_panics a zero zb axis f hwf hf⟩
+
+/-- **all three families refuse when another axis is empty** -/
+theorem axis_ops_other_axis_empty (a : Arr α) (zero : α) (zb : β) (ax : Int) (hwf : a.WF)
+    (hax : normalizeAxis a.ndim ax < a.ndim) (h0 : 0 ∈ a.shape.eraseIdx (normalizeAxis a.ndim ax))
+    (f1 : Arr α → Res (Arr β)) (kd : Option Bool) (g1 : Arr α → Option Bool → Res (Arr β)) :
+    a.reduceAxis zero zb (some ax) f1 = .err .ParameterError ∧
+    a.countAxis zero zb (some ax) kd g1 = .err .ParameterError ∧
+    a.scanAxis zero zb (some ax) f1 = .err .ParameterError := by
+  simp only [Arr.reduceAxis, Arr.countAxis, Arr.scanAxis, applyAlongAxis_other_zero _ _ _ _ _ hwf hax h0, Res.bind_err,
+    and_self]
+
+/-- **reductions along an empty axis** (the other axes non-empty): the 1-D body is asked once, on the empty lane; at
+rank 1 its answer is the result; at rank > 1 the answer is kept only when it has one element and all other axes have
+length 1 (otherwise the reshape refuses with `ShapeMustMatchValuesLength`); an error of the body is passed on -/
+theorem reduce_empty_axis (a : Arr α) (zero : α) (zb : β) (ax : Int) (f1 : Arr α → Res (Arr β))
+    (hwf : a.WF) (hax : normalizeAxis a.ndim ax < a.ndim)
+    (hrest : 0 ∉ a.shape.eraseIdx (normalizeAxis a.ndim ax)) (hn : a.shape.getD (normalizeAxis a.ndim ax) 0 = 0) :
+    a.reduceAxis zero zb (some ax) f1 = f1 (Arr.flat []) >>= fun y =>
+      if a.ndim > 1 then
+        (if (a.shape.eraseIdx (normalizeAxis a.ndim ax)).prod = 1 ∧ y.elems.length = 1
+         then .ok ⟨y.elems, a.shape.eraseIdx (normalizeAxis a.ndim ax)⟩ else .err .ShapeMustMatchValuesLength)
+      else .ok ⟨y.elems, [y.elems.length]⟩ := by
+  generalize haxis : normalizeAxis a.ndim ax = axis at *
+  have hax' : axis < a.shape.length := hax
+  have hP : 0 < (a.shape.eraseIdx axis).prod := prod_pos_of_not_mem _ hrest
+  simp only [Arr.reduceAxis, haxis, applyAlongAxis_axis_zero a zero zb axis f1 hwf hax hrest hn]
+  cases f1 (Arr.flat []) with
+  | err e => rfl
+  | panic => rfl
+  | ok y =>
+    simp only [Res.bind_ok]
+    by_cases hnd : a.ndim > 1
+    · have hnd' : a.shape.length > 1 := hnd
+      rw [if_pos hnd]
+      by_cases hc : (a.shape.eraseIdx axis).prod = 1 ∨ y.elems.length = 0
+      · rw [if_pos hc]
+        simp only [Res.bind_ok, Arr.ndim, List.length_set, hnd', if_true, vecRemove, List.eraseIdx_set_eq, Arr.reshape, Arr.new]
+        rw [if_neg (by omega)]
+        simp only [Res.bind_ok]
+        by_cases h1 : (a.shape.eraseIdx axis).prod = 1 ∧ y.elems.length = 1
+        · rw [if_pos h1, if_pos (by omega)]
+        · rw [if_neg h1, if_neg (by omega)]
+      · rw [if_neg hc, if_neg (by omega)]; rfl
+    · have h1d : a.shape.length = 1 := by have : a.ndim ≥ 1 := by omega
+                                          simp only [Arr.ndim] at this hnd; omega
+      obtain ⟨n, hs⟩ := List.length_eq_one_iff.1 h1d
+      have h0 : axis = 0 := by omega
+      subst h0
+      rw [if_neg hnd, if_pos (Or.inl (by rw [hs]; rfl))]
+      simp only [Res.bind_ok, Arr.ndim, Arr.reshape, Arr.new, hs, List.set_cons_zero, List.length_cons, List.length_nil,
+        Nat.zero_add, Nat.lt_irrefl, if_false, List.prod_cons, List.prod_nil, Nat.mul_one, if_true]
+
+/-- **count / position queries along an empty axis**: with `keepdims = Some(true)` the answer of the 1-D query on the
+empty lane is kept along the axis when it fits; otherwise the axis is removed, which fits only a one-element answer
+when all other axes have length 1 -/
+theorem count_empty_axis (a : Arr α) (zero : α) (zb : β) (ax : Int) (kd : Option Bool) (g1 : Arr α → Option Bool → Res (Arr β))
+    (hwf : a.WF) (hax : normalizeAxis a.ndim ax < a.ndim)
+    (hrest : 0 ∉ a.shape.eraseIdx (normalizeAxis a.ndim ax)) (hn : a.shape.getD (normalizeAxis a.ndim ax) 0 = 0) :
+    a.countAxis zero zb (some ax) kd g1 = g1 (Arr.flat []) kd >>= fun y =>
+      if kd = some true then
+        (if (a.shape.eraseIdx (normalizeAxis a.ndim ax)).prod = 1 ∨ y.elems.length = 0
+         then .ok ⟨y.elems, a.shape.set (normalizeAxis a.ndim ax) y.elems.length⟩ else .err .ShapeMustMatchValuesLength)
+      else
+        (if (a.shape.eraseIdx (normalizeAxis a.ndim ax)).prod = 1 ∧ y.elems.length = 1
+         then .ok ⟨y.elems, a.shape.eraseIdx (normalizeAxis a.ndim ax)⟩ else .err .ShapeMustMatchValuesLength) := by
+  generalize haxis : normalizeAxis a.ndim ax = axis at *
+  have hax' : axis < a.shape.length := hax
+  have hP : 0 < (a.shape.eraseIdx axis).prod := prod_pos_of_not_mem _ hrest
+  simp only [Arr.countAxis, haxis, applyAlongAxis_axis_zero a zero zb axis (fun arr => g1 arr kd) hwf hax hrest hn]
+  cases g1 (Arr.flat []) kd with
+  | err e => rfl
+  | panic => rfl
+  | ok y =>
+    simp only [Res.bind_ok]
+    by_cases hkd : kd = some true
+    · rw [if_pos hkd]
+      by_cases hc : (a.shape.eraseIdx axis).prod = 1 ∨ y.elems.length = 0
+      · rw [if_pos hc, Res.bind_ok, if_pos hkd]
+      · rw [if_neg hc]; rfl
+    · rw [if_neg hkd]
+      by_cases hc : (a.shape.eraseIdx axis).prod = 1 ∨ y.elems.length = 0
+      · rw [if_pos hc]
+        simp only [Res.bind_ok, hkd, if_false, vecRemove, Arr.reshape, Arr.new]
+        rw [if_neg (by omega)]
+        simp only [Res.bind_ok]
+        by_cases h1 : (a.shape.eraseIdx axis).prod = 1 ∧ y.elems.length = 1
+        · rw [if_pos h1, if_pos (by omega)]
+        · rw [if_neg h1, if_neg (by omega)]
+      · rw [if_neg hc, if_neg (by omega)]; rfl
+
+/-- **scans along an empty axis**: the answer of the 1-D scan on the empty lane, kept along the axis when it fits; in
+particular a scan that returns the empty lane for the empty lane returns the (empty) array unchanged -/
+theorem scan_empty_axis (a : Arr α) (zero : α) (zb : β) (ax : Int) (f1 : Arr α → Res (Arr β))
+    (hwf : a.WF) (hax : normalizeAxis a.ndim ax < a.ndim)
+    (hrest : 0 ∉ a.shape.eraseIdx (normalizeAxis a.ndim ax)) (hn : a.shape.getD (normalizeAxis a.ndim ax) 0 = 0) :
+    (a.scanAxis zero zb (some ax) f1 = f1 (Arr.flat []) >>= fun y =>
+      if (a.shape.eraseIdx (normalizeAxis a.ndim ax)).prod = 1 ∨ y.elems.length = 0
+      then .ok ⟨y.elems, a.shape.set (normalizeAxis a.ndim ax) y.elems.length⟩ else .err .ShapeMustMatchValuesLength) ∧
+    (∀ y, f1 (Arr.flat []) = .ok y → y.elems = [] → a.scanAxis zero zb (some ax) f1 = .ok ⟨[], a.shape⟩) := by
+  have h := applyAlongAxis_axis_zero a zero zb (normalizeAxis a.ndim ax) f1 hwf hax hrest hn
+  refine ⟨h, ?_⟩
+  intro y hy he
+  simp only [Arr.scanAxis, h, hy, Res.bind_ok, he, List.length_nil, or_true, if_true]
+  rw [← hn, set_getD_self]
+
+/-- **no axis, empty array**: a reduction / query is the 1-D body on the array, which has no elements; a scan is the
+1-D body on the empty flat array -/
+theorem none_axis_empty (a : Arr α) (zero : α) (zb : β) (hwf : a.WF) (h0 : 0 ∈ a.shape)
+    (f1 : Arr α → Res (Arr β)) (kd : Option Bool) (g1 : Arr α → Option Bool → Res (Arr β)) :
+    a.elems = [] ∧ a.reduceAxis zero zb none f1 = f1 ⟨[], a.shape⟩ ∧ a.countAxis zero zb none kd g1 = g1 ⟨[], a.shape⟩ kd ∧
+    a.scanAxis zero zb none f1 = f1 (Arr.flat []) := by
+  have he := elems_nil_of_zero_mem a hwf h0
+  have ha := eq_mk_nil_of_zero_mem a hwf h0
+  refine ⟨he, ?_, ?_, ?_⟩
+  · show f1 a = _; rw [← ha]
+  · show g1 a kd = _; rw [← ha]
+  · show f1 a.ravel = _; rw [Arr.ravel, he]
+
+/-- **the three families never panic**: EVERY well-formed array (zero-length axes or not), every axis argument (none,
+in range, out of range, either spelling), `keepdims` anything, 1-D bodies that never panic themselves -/
+theorem axis_ops_never_panic (a : Arr α) (zero : α) (zb : β) (axis : Option Int) (kd : Option Bool)
+    (f1 : Arr α → Res (Arr β)) (g1 : Arr α → Option Bool → Res (Arr β)) (hwf : a.WF)
+    (hf : ∀ x, f1 x ≠ .panic) (hg : ∀ x k, g1 x k ≠ .panic) :
+    a.reduceAxis zero zb axis f1 ≠ .panic ∧ a.countAxis zero zb axis kd g1 ≠ .panic ∧ a.scanAxis zero zb axis f1 ≠ .panic := by
+  have hnew : ∀ (es : List β) (sh : List Nat), Arr.new es sh ≠ .panic := by
+    intro es sh; unfold Arr.new; split <;> exact fun h => nomatch h
+  cases axis with
+  | none => exact ⟨hf a, hg a kd, hf _⟩
+  | some ax =>
+    by_cases hax : normalizeAxis a.ndim ax < a.ndim
+    swap
+    · obtain ⟨h1, h2, h3⟩ := axis_out_of_range a zero zb ax (by omega) f1 kd g1
+      rw [h1, h2, h3]; exact ⟨(fun h => nomatch h), (fun h => nomatch h), (fun h => nomatch h)⟩
+    have hax' : normalizeAxis a.ndim ax < a.shape.length := hax
+    refine ⟨?_, ?_, ?_⟩
+    · rcases applyAlongAxis_total a zero zb (normalizeAxis a.ndim ax) f1 hwf hf with ⟨r, h, _, hnd⟩ | ⟨e, h⟩
+      · simp only [Arr.reduceAxis, h, Res.bind_ok]
+        split
+        · have : ¬ normalizeAxis a.ndim ax ≥ r.shape.length := by simp only [Arr.ndim] at hnd; omega
+          simp only [vecRemove, this, if_false, Res.bind_ok, Arr.reshape]; exact hnew _ _
+        · exact hnew _ _
+      · simp only [Arr.reduceAxis, h, Res.bind_err]; exact fun h => nomatch h
+    · rcases applyAlongAxis_total a zero zb (normalizeAxis a.ndim ax) (fun arr => g1 arr kd) hwf (fun x => hg x kd) with ⟨r, h, _, hnd⟩ | ⟨e, h⟩
+      · simp only [Arr.countAxis, h, Res.bind_ok]
+        split
+        · exact fun h => nomatch h
+        · have : ¬ normalizeAxis a.ndim ax ≥ a.shape.length := by omega
+          simp only [vecRemove, this, if_false, Res.bind_ok, Arr.reshape]; exact hnew _ _
+      · simp only [Arr.countAxis, h, Res.bind_err]; exact fun h => nomatch h
+    · exact applyAlongAxis_never_panics a zero zb _ f1 hwf hf
+
+/-! ### non-vacuity of the extension: shapes `[2,0]`, `[0,3]`, `[2,0,3]` (and `[1,0]`, `[0]`, where a reduction fits) -/
+example : (⟨[], [2, 0]⟩ : Arr Nat).WF ∧ (⟨[], [0, 3]⟩ : Arr Nat).WF ∧ (⟨[], [2, 0, 3]⟩ : Arr Nat).WF := by decide
+-- `[2,0]` axis 1: only the processed axis is empty; `[2,0]` axis 0 / `[0,3]` axis 1 / `[2,0,3]` axes 0, 2: another axis is empty
+example : 0 ∉ ([2, 0] : List Nat).eraseIdx 1 ∧ ([2, 0] : List Nat).getD 1 0 = 0 := by decide
+example : 0 ∈ ([2, 0] : List Nat).eraseIdx 0 ∧ 0 ∈ ([0, 3] : List Nat).eraseIdx 1 ∧ 0 ∈ ([2, 0, 3] : List Nat).eraseIdx 0
+    ∧ 0 ∈ ([2, 0, 3] : List Nat).eraseIdx 2 ∧ 0 ∉ ([2, 0, 3] : List Nat).eraseIdx 1 := by decide
+-- the sample bodies never panic, so the total statements apply to them
+example : (∀ x, sumBody x ≠ .panic) ∧ (∀ x, cumsumBody x ≠ .panic) :=
+  ⟨(fun _ h => nomatch h), (fun _ h => nomatch h)⟩
+example := along_axis_total (⟨[], [2, 0, 3]⟩ : Arr Nat) 0 0 1 sumBody (by decide) (fun _ h => nomatch h)
+example := reduce_empty_axis (⟨[], [2, 0]⟩ : Arr Nat) 0 0 1 sumBody (by decide) (by decide) (by decide) (by decide)
+-- what the model answers, by evaluation:
+example : (⟨[], [2, 0]⟩ : Arr Nat).reduceAxis 0 0 (some 1) sumBody = .err .ShapeMustMatchValuesLength := by decide +kernel
+example : (⟨[], [2, 0]⟩ : Arr Nat).reduceAxis 0 0 (some 0) sumBody = .err .ParameterError := by decide +kernel
+example : (⟨[], [0, 3]⟩ : Arr Nat).reduceAxis 0 0 (some 0) sumBody = .err .ShapeMustMatchValuesLength := by decide +kernel
+example : (⟨[], [0, 3]⟩ : Arr Nat).reduceAxis 0 0 (some (-1)) sumBody = .err .ParameterError := by decide +kernel
+example : (⟨[], [2, 0, 3]⟩ : Arr Nat).reduceAxis 0 0 (some 1) sumBody = .err .ShapeMustMatchValuesLength := by decide +kernel
+example : (⟨[], [2, 0, 3]⟩ : Arr Nat).reduceAxis 0 0 (some 2) sumBody = .err .ParameterError := by decide +kernel
+example : (⟨[], [1, 0]⟩ : Arr Nat).reduceAxis 0 0 (some 1) sumBody = .ok ⟨[0], [1]⟩ := by decide +kernel
+example : (⟨[], [0]⟩ : Arr Nat).reduceAxis 0 0 (some 0) sumBody = .ok ⟨[0], [1]⟩ := by decide +kernel
+example : (⟨[], [1, 0]⟩ : Arr Nat).countAxis 0 0 (some 1) (some true) countBody = .ok ⟨[0], [1, 1]⟩ := by decide +kernel
+example : (⟨[], [2, 0]⟩ : Arr Nat).scanAxis 0 0 (some 1) cumsumBody = .ok ⟨[], [2, 0]⟩ := by decide +kernel
+example : (⟨[], [2, 0, 3]⟩ : Arr Nat).scanAxis 0 0 (some 1) cumsumBody = .ok ⟨[], [2, 0, 3]⟩ := by decide +kernel
+example : (⟨[], [2, 0, 3]⟩ : Arr Nat).scanAxis 0 0 (some 0) cumsumBody = .err .ParameterError := by decide +kernel
+example : (⟨[], [0, 3]⟩ : Arr Nat).scanAxis 0 0 none cumsumBody = .ok ⟨[], [0]⟩ := by decide +kernel
 
 end ArrModel.C08
